@@ -40,11 +40,24 @@ def linalg_summary(I):
     I.hooks[("utils.linalg", "invert_diagonal")] = invd
 
 
+def normal_summary(I):
+    """experimental/misc.py normal_cdf / normal_pdf are replaced by the standard normal cdf / pdf (opaque heads Phi / phi with
+    Phi(-x) = 1 - Phi(x), phi(-x) = phi(x)); the numerical guard inside misc.normal_cdf is not analysed."""
+    def cdf(I_, selfobj, args, kw):
+        return nf.elementwise("Phi", args[0])
+
+    def pdf_(I_, selfobj, args, kw):
+        return nf.elementwise("phi", args[0])
+    I.hooks[("experimental.misc", "normal_cdf")] = cdf
+    I.hooks[("experimental.misc", "normal_pdf")] = pdf_
+
+
 def new_interp(facts=None, flags=None, repo=None, summaries=True):
     prog = model.load(repo)
     I = Interp(prog, facts, flags)
     if summaries:
         linalg_summary(I)
+        normal_summary(I)
     return I
 
 
